@@ -709,6 +709,7 @@ impl Song {
         }
     }
     pub fn calc_rand_value(&mut self, val: isize, rand_v: isize) -> isize {
+        if rand_v <= 0 { return val; } // no random width (avoid divide by zero)
         let r = self.rand();
         let r = (r as isize) % rand_v - (rand_v / 2);
         val + r
